@@ -218,9 +218,23 @@ func (x *Exec) atReturn(st *State, res []Val) {
 	}
 	key := x.funcKeyOf(x.fn)
 	// a path that returns before a focus condition became evaluable is checked unconditionally (stronger)
+	var ri *ReplayInfo
+	if len(st.stack) == 1 && replayable(x.fn) {
+		ri = &ReplayInfo{Fn: x.fn}
+		for _, p := range x.fn.Params {
+			ri.Params = append(ri.Params, fr.vals[p].S)
+		}
+		for _, r := range res {
+			ri.Results = append(ri.Results, r.S)
+		}
+	}
 	for _, e := range x.fc.Ensures {
 		t := x.evalBool(st, e.SX, env)
+		n0 := len(x.obs)
 		x.emit(st, "post", key+"/ensures:"+e.Name, e, t)
+		for _, ob := range x.obs[n0:] {
+			ob.Replay = ri
+		}
 		if e.SX.Head() == "=>" && len(e.SX.List) == 3 {
 			// vacuity guard: the antecedent of a case-table row must be reachable on some returning path
 			a := x.evalBool(st, e.SX.List[1], env)
